@@ -275,6 +275,16 @@ def main():
                                                "theorems_not_checking": [f"coqchk -o PS.{pid}"], "coqc_log": ck_out[-1500:]})
             out_lines.append(f"VIOLATION property={pid} replay={path} no-failing-input-found")
             nv, rc = 1, 1
+    def _small(x):
+        txt = json.dumps(x, default=str)
+        if len(txt) <= 6000:
+            return x
+        d = x.get("desc") if isinstance(x, dict) else None
+        return {"truncated": True, "size_chars": len(txt),
+                "note": (f"description with {len(d.get('units', []))} units" if isinstance(d, dict) else "large sample omitted"),
+                "head": txt[:400]}
+    if isinstance(cov.get("samples"), list):
+        cov["samples"] = [_small(x) for x in cov["samples"]]
     ev = {
         "property_id": pid, "tier": a.tier, "seed": seed, "level": "proof", "coverage": cov,
         "assumptions": prop.get("assumptions") or _assumptions(pid), "wall_s": round(wall, 2), "violations": nv,
